@@ -509,7 +509,22 @@ def _replay(job):
             return dense(e, c)[0].copy()
         except Exception:
             return None
+    import zlib
+    touch = zlib.crc32(repr(key).encode()) % 2 == 1
+
+    def _touch(e):
+        # discarded uses of the operand (index, axis sum, transpose, reshape): they may fill caches on the object, and must
+        # not change what the operators applied afterwards return (an expression means the same wherever it is used)
+        for f in (lambda: e[0], lambda: e.sum(axis=0), lambda: e.T, lambda: e.reshape((e.size if hasattr(e, 'size') else -1,))):
+            try:
+                r_ = f()
+                if not hasattr(r_, 'linear') and not hasattr(r_, 'raffine') and hasattr(r_, 'to_affine'):
+                    r_.to_affine()
+            except Exception:
+                pass
     for k, st in enumerate(hist[1:], 1):
+        if touch:
+            _touch(cur)
         before = _snap(cur)
         prev = cur
         try:
